@@ -411,8 +411,9 @@ class CubeRoundTrip:
             write_cube(at, fn, f)
             atom, pos, Z, a2, s2, f2 = read_cube(fn)
         errs = dict(cell=float(np.abs(np.asarray(a2) - a).max()), pos=float(np.abs(np.asarray(pos) - np.asarray(at.pos)).max()),
-                    field=float(np.abs(np.asarray(f2) - f).max()), s=[int(x) for x in s2])
-        bad = errs["cell"] > 1e-4 or errs["pos"] > 1e-5 or errs["field"] > 1e-5 or errs["s"] != [7, 11, 18] or list(atom) != ["O", "H"]
+                    field=float(np.abs(np.asarray(f2) - f).max()), s=[int(x) for x in s2],
+                    charges=float(np.abs(np.asarray(Z, dtype=float) - np.asarray(at.Z, dtype=float)).max()))
+        bad = errs["cell"] > 1e-4 or errs["pos"] > 1e-5 or errs["field"] > 1e-5 or errs["s"] != [7, 11, 18] or list(atom) != ["O", "H"] or errs["charges"] > 1e-5
         return bool(bad), dict(check="native CUBE round trip, triclinic cell, s=(7,11,18)", errors=errs)
 
 
